@@ -168,9 +168,18 @@ def run_tlc(module, cfg, wd, env=None, workers=1, timeout=1800, simulate=None, e
         else:
             p = subprocess.Popen(cmd, cwd=SPEC, env=e, stdout=subprocess.PIPE, stderr=subprocess.STDOUT, text=True)
             keep = []
+            pending = None          # TLC wraps long values over several lines: join until the brackets balance
             for line in p.stdout:
-                if line.startswith('<<"T"') or line.startswith('<<"B"'):
-                    line_cb(line)
+                if pending is not None:
+                    pending += ' ' + line.strip()
+                    if pending.count('<<') == pending.count('>>'):
+                        line_cb(pending)
+                        pending = None
+                elif re.match(r'<<\s*"(T|B)"', line):
+                    if line.count('<<') == line.count('>>'):
+                        line_cb(line)
+                    else:
+                        pending = line.strip()
                 else:
                     keep.append(line)
             rc = p.wait(timeout=timeout)
